@@ -414,6 +414,13 @@ def monitor_c10(ctx):
         pays.append({'line': c[0]})
     for c in gens2.bare_scope_cases(ctx['seed'], 200):
         pays.append({'line': c[0], 'must_bind': c[2]})
+    # deep recursion whose failure (any limit on the depth of calls, the interpreter's own included) is caught by a host callback:
+    # every parameter scope of the unwound calls is gone, top-level statements afterwards bind in the host mapping again
+    for depth in (20, 50, 90, 98, 99, 100, 101, 102, 120, 150, 250):
+        for src in (f'f = n => (0 if n < 1 else f(n - 1) + 1)\nr = try_apply(f, {depth})\nn = 7\nafter = n\n[after]',
+                    f'f = (n, acc) => (acc if n < 1 else f(n - 1, acc + 1))\nr = try_apply(w => f({depth}, 0), 0)\nacc = 3\nz = [acc, try_apply(w => n, 0)]\nz',
+                    f'g = k => (k if k < 1 else try_apply(g, k - 1))\nr = g({depth})\nk = 1\nz = k\nz'):
+            pays.append({'line': gens2.eval_line(src, budget=100000), 'must_bind': ['r', 'z'] if 'z =' in src else ['r', 'n', 'after']})
     a = _run('c10', 'c10', pays, 'scope programs: identity and contents of FUNCTIONS before/after; no name that is not assigned at top level '
              'may appear in the host mapping')
     b = _run('c10_noname', 'c10_noname', [{'srcs': ['len = 3', 'zz = 1', 'f = v => v', 'len([1, 2])']}, {'srcs': ['x = 5', 'x']}],
@@ -579,6 +586,8 @@ def monitor_c12(ctx):
     for kind in ('lock', 'gen', 'rlock', 'obj'):
         for shape in ('dict', 'list'):
             for src in ['x = h', 'x = [h]', 'x = h; x["cart"].push(9)', 'c = {}; c["k"] = h', 'c = [0]; c[0] = h', 'x = []; x += h',
+                        # compound forms whose target does not exist yet (they fail on the unchanged tree; whatever they do, they may not link)
+                        'c = {}; c["k"] += h', 'c = {"a": 1}; c["n"] += [h]', 'c = {}; c["k"] -= h', 'c = []; c[0] += h', 'x += h', 'x = None; x += h',
                         'c = [[0]]; c[0] += h', 'x = h or 0', 'x = {"a": h}', 'y = h["cart"]' if shape == 'dict' else 'y = h[0]',
                         'y = h["meta"]' if shape == 'dict' else 'y = h[2]', 'x = [h["cart"], h["meta"]]' if shape == 'dict' else 'x = [h[0], h[2]]']:
                 pays.append({'hostobj': kind, 'shape': shape, 'src': src})
